@@ -552,3 +552,66 @@ Definition check_resub (k : string * string * string * string) : bool :=
   let '(ref, rep, s, out) := k in String.eqb (resub ref rep s) out.
 Definition check_case_both (k : list (string * string) * list (comp * (list string * list nat)) * (list obs * list obs)) : bool :=
   check_case_chars k && check_case_tokens k.
+
+(* ---------------------------------------------------------------- one process asking for hashes REPEATEDLY while the
+   referenced files change.  md5_of_file opens and reads the path every time it is called and nothing outside the
+   ComponentSpecification objects remembers a digest; the objects themselves keep the info/hash they computed until
+   memoization_reset().  The model describes the asks that do compute: on objects that were reset, never asked, or newly
+   built on the same instance directory (Experiment.experimentFromInstance).
+   A write replaces the state (missing / folder / file with contents) and the modification time of one path: every
+   reference that resolves to that path sees it.  The size of a file is a function of its contents and the model function
+   reads neither it nor the time, so "same size within the same second" is just one kind of write.
+   An ask returns the infos (strong or fuzzy) of the selected components in the state of the files AT THE TIME OF THE ASK. *)
+Definition set_ref (loc : string) (mt : Z) (st : fstate) (r : dref) : dref :=
+  if String.eqb (d_location r) loc then
+    {| d_key := d_key r; d_text := d_text r; d_location := d_location r; d_mtime := mt; d_prod := d_prod r;
+       d_fileref := d_fileref r; d_method := d_method r; d_state := st |}
+  else r.
+Definition write_comp (loc : string) (mt : Z) (st : fstate) (c : comp) : comp :=
+  {| c_name := c_name c; c_stage := c_stage c; c_location := c_location c; c_exe := c_exe c; c_args := c_args c;
+     c_refs := map (set_ref loc mt st) (c_refs c); c_backend := c_backend c |}.
+Definition write (loc : string) (mt : Z) (st : fstate) (g : list comp) : list comp := map (write_comp loc mt st) g.
+
+Inductive op := OWrite (loc : string) (mtime : Z) (st : fstate) | OAsk (fuzzy : bool) (sel : list nat).
+
+(* the state of the instance after the operations *)
+Fixpoint final (g : list comp) (ops : list op) : list comp :=
+  match ops with
+  | [] => g
+  | OWrite l m s :: t => final (write l m s g) t
+  | OAsk _ _ :: t => final g t
+  end.
+
+Definition pick {A} (l : list (option A)) (sel : list nat) : list (option A) := map (fun k => nth k l None) sel.
+
+Section Session.
+Variable md5 : string -> string.
+
+(* the answers, one per ask, in order *)
+Fixpoint session (g : list comp) (ops : list op) : list (list (option info)) :=
+  match ops with
+  | [] => []
+  | OWrite l m s :: t => session (write l m s g) t
+  | OAsk f sel :: t => pick (infos md5 f g) sel :: session g t
+  end.
+
+(* the same with the character-level model of the argument rewriting (the oracles do not depend on the files) *)
+Fixpoint session_chars (g : list (comp * (list string * list nat))) (ops : list op) : list (list (option info)) :=
+  match ops with
+  | [] => []
+  | OWrite l m s :: t => session_chars (map (fun x => (write_comp l m s (fst x), snd x)) g) t
+  | OAsk f sel :: t => pick (infos_chars md5 f g) sel :: session_chars g t
+  end.
+End Session.
+
+(* case = (md5 table, initial graph with oracles, (operations, one list of observations per ask)) *)
+Definition check_session_chars
+  (k : list (string * string) * list (comp * (list string * list nat)) * (list op * list (list obs))) : bool :=
+  let '(tbl, g, (ops, ans)) := k in
+  forallb order_ok g && all2 (all2 (obs_matches tbl)) (session_chars (tbl_md5 tbl) g ops) ans.
+Definition check_session_tokens
+  (k : list (string * string) * list (comp * (list string * list nat)) * (list op * list (list obs))) : bool :=
+  let '(tbl, g, (ops, ans)) := k in all2 (all2 (obs_matches tbl)) (session (tbl_md5 tbl) (map fst g) ops) ans.
+Definition check_session_both
+  (k : list (string * string) * list (comp * (list string * list nat)) * (list op * list (list obs))) : bool :=
+  check_session_chars k && check_session_tokens k.
